@@ -443,19 +443,31 @@ def _str_bytes(ex, callee, argv):
 
 
 def _str_chars_collect(ex, callee, argv):
-    """s.chars() on a string whose bytes are concrete ASCII: the characters; collect::<Vec<char>>() of that: the same list"""
+    """s.chars() on a string whose bytes are concrete (UTF-8 decoded into code points); collect::<Vec<char>>() of that: the same list"""
     if callee.endswith("::chars"):
         r = argv[0]
         n = ex.slice_len(r)
-        out = []
+        raw = []
         for i in range(n):
             b_ = ex.read_at(r.cell, r.path + ((r.rng[0] if r.rng else 0) + i,), None)
-            if not (isinstance(b_, Sc) and b_.conc() and b_.v < 128):
-                raise Unsupported("chars() of a non-ASCII or symbolic string")
-            out.append(Sc(b_.v, "char"))
+            if not (isinstance(b_, Sc) and b_.conc()):
+                raise Unsupported("chars() of a string with symbolic bytes")
+            raw.append(b_.v)
+        try:
+            text = bytes(raw).decode("utf-8")
+        except UnicodeDecodeError:
+            raise Unsupported("chars() of a byte string that is not valid UTF-8")
+        out = [Sc(ord(ch), "char") for ch in text]
         return Agg(out, name="Chars")
     v = argv[0]
     return Agg(list(v.f), name="Vec")
+
+
+def _chars_next(ex, callee, argv):
+    it = ex.load(argv[0])
+    if it.f:
+        return some(it.f.pop(0))
+    return NONE()
 
 
 def _bytes_next(ex, callee, argv):
@@ -848,6 +860,8 @@ TABLE = [
     (re.compile(r"^core::str::<impl str>::len$"), _str_len),
     (re.compile(r"^core::str::<impl str>::chars$"), _str_chars_collect),
     (re.compile(r"^<Chars as Iterator>::collect$"), _str_chars_collect),
+    (re.compile(r"^<Chars as IntoIterator>::into_iter$"), _into_iter),
+    (re.compile(r"^<Chars as Iterator>::next$"), _chars_next),
     (re.compile(r"^core::str::<impl str>::(bytes|as_bytes)$"), _str_bytes),
     (re.compile(r"^<std::str::Bytes as IntoIterator>::into_iter$"), _into_iter),
     (re.compile(r"^<std::str::Bytes as Iterator>::next$"), _bytes_next),
